@@ -1,4 +1,5 @@
 import OrsoVerif.Model.Display
+import OrsoVerif.Lemmas.DisplaySpec
 /-! Helper lemmas for C18, part 1: row selection and labelling. -/
 namespace Display
 variable {α : Type}
@@ -27,63 +28,64 @@ theorem labelFrom_append (k : Nat) (xs ys : List α) :
   | nil => simp [labelFrom]
   | cons x xs ih => simp [labelFrom, ih, Nat.add_assoc, Nat.add_comm 1]
 
-theorem eagerGo_append (n tlen limit : Nat) (tt fixed : Bool) (i : Nat) (xs ys : List α) :
-    eagerGo n tlen limit tt fixed i (xs ++ ys)
-      = eagerGo n tlen limit tt fixed i xs ++ eagerGo n tlen limit tt fixed (i + xs.length) ys := by
+theorem eagerGo_append (A : Arith) (n tlen limit : Nat) (tt : Bool) (i : Nat) (xs ys : List α) :
+    eagerGo A n tlen limit tt i (xs ++ ys)
+      = eagerGo A n tlen limit tt i xs ++ eagerGo A n tlen limit tt (i + xs.length) ys := by
   induction xs generalizing i with
   | nil => simp [eagerGo]
   | cons x xs ih => simp [eagerGo, ih, Nat.add_assoc, Nat.add_comm 1]
 
 /-- no head/tail split: plain consecutive labels -/
-theorem eagerGo_plain (n tlen limit : Nat) (tt fixed : Bool) (h : ¬ (tt = true ∧ 2 * limit < n))
-    (i : Nat) (xs : List α) : eagerGo n tlen limit tt fixed i xs = labelFrom (i + 1) xs := by
+theorem eagerGo_plain (n tlen limit : Nat) (tt : Bool) (h : ¬ (tt = true ∧ 2 * limit < n))
+    (i : Nat) (xs : List α) : eagerGo specArith n tlen limit tt i xs = labelFrom (i + 1) xs := by
   induction xs generalizing i with
   | nil => simp [eagerGo, labelFrom]
   | cons x xs ih => simp [eagerGo, labelFrom, eagerLineAt, h, ih]
 
 /-- rows before position `limit`: plain labels -/
-theorem eagerGo_before (n tlen limit : Nat) (tt fixed : Bool) (i : Nat) (xs : List α)
-    (h : i + xs.length ≤ limit) : eagerGo n tlen limit tt fixed i xs = labelFrom (i + 1) xs := by
+theorem eagerGo_before (n tlen limit : Nat) (tt : Bool) (i : Nat) (xs : List α)
+    (h : i + xs.length ≤ limit) : eagerGo specArith n tlen limit tt i xs = labelFrom (i + 1) xs := by
   induction xs generalizing i with
   | nil => simp [eagerGo, labelFrom]
   | cons x xs ih =>
     simp only [List.length_cons] at h
     have h1 : ¬ (i = limit) := by omega
     have h2 : ¬ (limit ≤ i) := by omega
-    simp only [eagerGo, labelFrom, eagerLineAt, h1, h2, if_false]
+    simp only [eagerGo, labelFrom, eagerLineAt, spec_eagerSplit, spec_eagerAtEll, spec_eagerInTail,
+      spec_eagerLabel, h1, h2, if_false]
     rw [ih (i + 1) (by omega)]
     split <;> simp
 
 /-- rows after position `limit` in a split table: labels shifted by `base - 2*limit` -/
-theorem eagerGo_after (n tlen limit : Nat) (fixed : Bool) (hb : 2 * limit < n) (i : Nat) (xs : List α)
+theorem eagerGo_after (n tlen limit : Nat) (hb : 2 * limit < n) (i : Nat) (xs : List α)
     (h : limit < i) :
-    eagerGo n tlen limit true fixed i xs
-      = labelFrom (i + ((if fixed then n else tlen) - 2 * limit) + 1) xs := by
+    eagerGo specArith n tlen limit true i xs = labelFrom (i + (n - 2 * limit) + 1) xs := by
   induction xs generalizing i with
   | nil => simp [eagerGo, labelFrom]
   | cons x xs ih =>
     have h1 : ¬ (i = limit) := by omega
     have h2 : limit ≤ i := by omega
-    simp only [eagerGo, labelFrom, eagerLineAt, h1, h2, hb, if_false, if_true, and_self, List.nil_append,
+    simp only [eagerGo, labelFrom, eagerLineAt, spec_eagerSplit, spec_eagerAtEll, spec_eagerInTail,
+      spec_eagerLabel, spec_eagerShift, h1, h2, hb, if_false, if_true, and_self, List.nil_append,
       List.cons_append]
+    simp only [show ∀ j, j + n - 2 * limit = j + (n - 2 * limit) from fun j => by omega]
     rw [ih (i + 1) (by omega)]
     congr 2
     omega
 
 /-- closed form of the eager lines of a split table, for either label arithmetic -/
-theorem eagerLines_split (rows : List α) (limit : Nat) (fixed : Bool) (hl : 0 < limit)
+theorem eagerLines_split (rows : List α) (limit : Nat) (hl : 0 < limit)
     (hn : 2 * limit < rows.length) :
-    eagerLines rows limit true fixed
+    eagerLines specArith rows limit true
       = labelFrom 1 (rows.take limit) ++ [Line.ellipsis]
-        ++ labelFrom (limit + ((if fixed then rows.length else 2 * limit) - 2 * limit) + 1)
-            (rows.drop (rows.length - limit)) := by
-  have hcut : eagerCut rows limit true = rows.take limit ++ rows.drop (rows.length - limit) := by
-    simp only [eagerCut]
+        ++ labelFrom (limit + (rows.length - 2 * limit) + 1) (rows.drop (rows.length - limit)) := by
+  have hcut : eagerCut specArith rows limit true = rows.take limit ++ rows.drop (rows.length - limit) := by
+    simp only [eagerCut, spec_headTail]
     rw [if_neg (by simp), if_pos ⟨hl, trivial⟩, if_pos (by omega), dfHead_eq _ _ hl, dfTail_eq _ _ hl (by omega)]
   have hlen : (rows.take limit ++ rows.drop (rows.length - limit)).length = 2 * limit := by
     simp [List.length_take, List.length_drop]; omega
   simp only [eagerLines, hcut, hlen]
-  rw [eagerGo_append, eagerGo_before _ _ _ _ _ 0 _ (by simp [List.length_take]; omega)]
+  rw [eagerGo_append, eagerGo_before _ _ _ _ 0 _ (by simp [List.length_take]; omega)]
   have htl : (rows.take limit).length = limit := by simp [List.length_take]; omega
   rw [htl]
   cases hd : rows.drop (rows.length - limit) with
@@ -91,9 +93,11 @@ theorem eagerLines_split (rows : List α) (limit : Nat) (fixed : Bool) (hl : 0 <
     have : (rows.drop (rows.length - limit)).length = limit := by simp [List.length_drop]; omega
     rw [hd] at this; simp at this; omega
   | cons y ys =>
-    simp only [eagerGo, eagerLineAt, hn, Nat.zero_add, if_true, and_self, Nat.le_refl, labelFrom,
+    simp only [eagerGo, eagerLineAt, spec_eagerSplit, spec_eagerAtEll, spec_eagerInTail, spec_eagerLabel,
+      spec_eagerShift, hn, Nat.zero_add, if_true, and_self, Nat.le_refl, labelFrom,
       List.cons_append, List.nil_append, List.append_assoc]
-    rw [eagerGo_after _ _ _ _ hn _ _ (by omega)]
+    simp only [show ∀ j, j + rows.length - 2 * limit = j + (rows.length - 2 * limit) from fun j => by omega]
+    rw [eagerGo_after _ _ _ hn _ _ (by omega)]
     have e : ∀ X : Nat, limit + 1 + X + 1 = limit + X + 1 + 1 := by intro X; omega
     rw [e]
 
@@ -123,42 +127,42 @@ theorem foldl_dequePush (m : Nat) (rest d : List α) (hd : d.length ≤ m) :
     omega
 
 theorem lazyGo_plain (limit ll : Nat) (h : ¬ (2 * limit < ll)) (i off : Nat) (xs : List α) :
-    lazyGo limit ll i off xs = labelFrom (i + off) xs := by
+    lazyGo specArith limit ll i off xs = labelFrom (i + off) xs := by
   induction xs generalizing i with
   | nil => simp [lazyGo, labelFrom]
   | cons x xs ih =>
-    simp only [lazyGo, h, and_false, if_false, labelFrom, ih]
+    simp only [lazyGo, spec_lazyEll, spec_lazyLabel, h, and_false, if_false, labelFrom, ih]
     congr 2; omega
 
 theorem lazyGo_before (limit ll : Nat) (i off : Nat) (xs : List α) (h : i + xs.length ≤ limit) :
-    lazyGo limit ll i off xs = labelFrom (i + off) xs := by
+    lazyGo specArith limit ll i off xs = labelFrom (i + off) xs := by
   induction xs generalizing i with
   | nil => simp [lazyGo, labelFrom]
   | cons x xs ih =>
     simp only [List.length_cons] at h
     have h1 : ¬ (i = limit) := by omega
-    simp only [lazyGo, h1, false_and, if_false, labelFrom]
+    simp only [lazyGo, spec_lazyEll, spec_lazyLabel, h1, false_and, if_false, labelFrom]
     rw [ih (i + 1) (by omega)]
     congr 2; omega
 
 theorem lazyGo_after (limit ll : Nat) (i off : Nat) (xs : List α) (h : limit < i) :
-    lazyGo limit ll i off xs = labelFrom (i + off) xs := by
+    lazyGo specArith limit ll i off xs = labelFrom (i + off) xs := by
   induction xs generalizing i with
   | nil => simp [lazyGo, labelFrom]
   | cons x xs ih =>
     have h1 : ¬ (i = limit) := by omega
-    simp only [lazyGo, h1, false_and, if_false, labelFrom]
+    simp only [lazyGo, spec_lazyEll, spec_lazyLabel, h1, false_and, if_false, labelFrom]
     rw [ih (i + 1) (by omega)]
     congr 2; omega
 
 theorem lazyGo_append_before (limit ll : Nat) (i off : Nat) (xs ys : List α) (h : i + xs.length ≤ limit) :
-    lazyGo limit ll i off (xs ++ ys) = labelFrom (i + off) xs ++ lazyGo limit ll (i + xs.length) off ys := by
+    lazyGo specArith limit ll i off (xs ++ ys) = labelFrom (i + off) xs ++ lazyGo specArith limit ll (i + xs.length) off ys := by
   induction xs generalizing i with
   | nil => simp [labelFrom]
   | cons x xs ih =>
     simp only [List.length_cons] at h
     have h1 : ¬ (i = limit) := by omega
-    simp only [List.cons_append, lazyGo, h1, false_and, if_false, labelFrom]
+    simp only [List.cons_append, lazyGo, spec_lazyEll, spec_lazyLabel, h1, false_and, if_false, labelFrom]
     rw [ih (i + 1) (by omega)]
     simp only [List.length_cons]
     congr 2
@@ -166,12 +170,18 @@ theorem lazyGo_append_before (limit ll : Nat) (i off : Nat) (xs ys : List α) (h
     · congr 1; omega
 
 theorem lazySelect_tt (rows : List α) (limit : Nat) (hl : 0 < limit) :
-    lazySelect rows limit true
+    lazySelect specArith rows limit true
       = (rows.take limit ++ (rows.drop limit).drop ((rows.drop limit).length - limit),
          ((rows.drop limit).length - 1) + (rows.take limit).length + 1) := by
   simp only [lazySelect]
   rw [if_neg (by simp), if_pos ⟨hl, trivial⟩, foldl_dequePush _ _ _ (by simp)]
-  simp
+  simp only [spec_lazyLenInit, spec_lazyLenUpd, List.nil_append, Prod.mk.injEq, true_and]
+  split
+  · rename_i he
+    have : (rows.drop limit).length = 0 := by
+      rw [List.isEmpty_iff] at he; rw [he]; rfl
+    omega
+  · omega
 
 end Display
 
@@ -210,12 +220,12 @@ theorem length_labelFrom (k : Nat) (xs : List α) : (labelFrom k xs).length = xs
 
 /-- closed form of the lazy lines in head-and-tail mode -/
 theorem lazyLines_tt (rows : List α) (limit : Nat) (hl : 0 < limit) :
-    lazyLines rows limit true =
+    lazyLines specArith rows limit true =
       if 2 * limit < rows.length then
         labelFrom 1 (rows.take limit) ++ [Line.ellipsis]
           ++ labelFrom (rows.length - limit + 1) (rows.drop (rows.length - limit))
       else labelFrom 1 rows := by
-  simp only [lazyLines, lazySelect_tt rows limit hl]
+  simp only [lazyLines, lazySelect_tt rows limit hl, spec_lazyOffset0]
   by_cases hn : 2 * limit < rows.length
   · simp only [hn, if_true]
     have htl : (rows.take limit).length = limit := by simp [List.length_take]; omega
@@ -229,8 +239,9 @@ theorem lazyLines_tt (rows : List α) (limit : Nat) (hl : 0 < limit) :
       have : (rows.drop (rows.length - limit)).length = limit := by simp [List.length_drop]; omega
       rw [hd] at this; simp at this; omega
     | cons y ys =>
-      simp only [lazyGo, Nat.zero_add, hn, and_self, if_true, labelFrom, List.append_assoc, List.cons_append,
-        List.nil_append]
+      simp only [lazyGo, spec_lazyEll, spec_lazyLabel, spec_lazyOffsetUpd, Nat.zero_add, hn, and_self, if_true,
+        labelFrom, List.append_assoc, List.cons_append, List.nil_append]
+      simp only [show ∀ j, j + rows.length - 2 * limit = j + (rows.length - 2 * limit) from fun j => by omega]
       rw [lazyGo_after _ _ _ _ _ (by omega)]
       have e1 : limit + (1 + (rows.length - 2 * limit)) = rows.length - limit + 1 := by omega
       have e2 : limit + 1 + (1 + (rows.length - 2 * limit)) = rows.length - limit + 1 + 1 := by omega
@@ -248,27 +259,27 @@ theorem lazyLines_tt (rows : List α) (limit : Nat) (hl : 0 < limit) :
       rw [lazyGo_plain _ _ (by omega)]
 
 theorem lazyLines_head (rows : List α) (limit : Nat) (hl : 0 < limit) :
-    lazyLines rows limit false = labelFrom 1 (rows.take limit) := by
+    lazyLines specArith rows limit false = labelFrom 1 (rows.take limit) := by
   simp only [lazyLines, lazySelect]
   rw [if_pos ⟨hl, trivial⟩]
-  simp only
+  simp only [spec_lazyOffset0]
   rw [lazyGo_before _ _ _ _ _ (by simp [List.length_take]; omega)]
 
-theorem eagerLines_small (rows : List α) (limit : Nat) (fixed : Bool) (hl : 0 < limit)
-    (hn : rows.length ≤ 2 * limit) : eagerLines rows limit true fixed = labelFrom 1 rows := by
-  have hcut : eagerCut rows limit true = rows := by
-    simp only [eagerCut]
+theorem eagerLines_small (rows : List α) (limit : Nat) (hl : 0 < limit)
+    (hn : rows.length ≤ 2 * limit) : eagerLines specArith rows limit true = labelFrom 1 rows := by
+  have hcut : eagerCut specArith rows limit true = rows := by
+    simp only [eagerCut, spec_headTail]
     rw [if_neg (by simp), if_pos ⟨hl, trivial⟩, if_neg (by omega)]
   simp only [eagerLines, hcut]
-  rw [eagerGo_plain _ _ _ _ _ (by omega)]
+  rw [eagerGo_plain _ _ _ _ (by omega)]
 
-theorem eagerLines_head (rows : List α) (limit : Nat) (fixed : Bool) (hl : 0 < limit) :
-    eagerLines rows limit false fixed = labelFrom 1 (rows.take limit) := by
-  have hcut : eagerCut rows limit false = rows.take limit := by
+theorem eagerLines_head (rows : List α) (limit : Nat) (hl : 0 < limit) :
+    eagerLines specArith rows limit false = labelFrom 1 (rows.take limit) := by
+  have hcut : eagerCut specArith rows limit false = rows.take limit := by
     simp only [eagerCut]
     rw [if_pos ⟨hl, trivial⟩]
     exact dfHead_eq rows limit hl
   simp only [eagerLines, hcut]
-  rw [eagerGo_plain _ _ _ _ _ (by simp)]
+  rw [eagerGo_plain _ _ _ _ (by simp)]
 
 end Display
